@@ -173,6 +173,60 @@ def exhaustive(tier):
         for place in ("root", "nested", "configtype", "list-item"):
             for form in ("function", "partial", "object"):
                 yield {"mode": "varying-default", "kind": kind, "place": place, "form": form}
+    # a value EQUAL to the declared default, assigned / loaded successfully, makes the field user-defined all the same
+    for kind in ("str", "int", "bool", "list", "typed-list", "dict", "float"):
+        for place in ("root", "nested"):
+            for route in ("setattr", "setitem", "ctor", "load_tree", "loads-json", "loads-yaml"):
+                yield {"mode": "same-as-default", "kind": kind, "place": place, "route": route}
+
+
+def _same_as_default_case(case, R):
+    cc = sandbox._state["cc"]
+    kind, place, route = case["kind"], case["place"], case["route"]
+    default = {"str": "dflt", "int": 5, "bool": False, "list": [1, "a"], "typed-list": [1, 2], "dict": {"k": 1}, "float": 1.5}[kind]
+    make = {"str": lambda: cc.StringField(default=default), "int": lambda: cc.IntField(default=default), "bool": lambda: cc.BoolField(default=default),
+            "list": lambda: cc.ListField(default=lambda: list(default)), "typed-list": lambda: cc.ListField(cc.IntField(), default=lambda: list(default)),
+            "dict": lambda: cc.DictField(default=lambda: dict(default)), "float": lambda: cc.FloatField(default=default)}[kind]
+    schema = cc.Schema()
+    schema.other = cc.IntField(default=7)
+    if place == "root":
+        schema.f = make()
+        path = ("f",)
+    else:
+        schema.a.f = make()
+        schema.a.sib = cc.IntField(default=3)
+        path = ("a", "f")
+    R.label("same-as-default")
+    R.nontrivial = True
+    value = type(default)(default) if isinstance(default, (list, dict)) else default
+    tree = value
+    for k in reversed(path):
+        tree = {k: tree}
+    cfg = schema()
+    owner = cfg if place == "root" else cfg.a
+    R.check(cc.is_value_defined(owner, "f") is False, "fresh-defined", "same-as-default", "user-defined on a fresh configuration")
+    try:
+        if route == "setattr":
+            setattr(owner, "f", value)
+        elif route == "setitem":
+            cfg[".".join(path)] = value
+        elif route == "ctor":
+            if place != "root":
+                return
+            cfg = schema(f=value)
+            owner = cfg
+        elif route == "load_tree":
+            cfg.load_tree(tree)
+        else:
+            fmt = route.split("-")[1]
+            cfg.loads(cc.ConfigFormat.get(fmt).dumps(cfg, tree), fmt)
+        owner = cfg if place == "root" else cfg.a
+    except Exception as exc:
+        R.fail("defined-iff", "same-as-default:raises:" + route, "assigning the default value itself raised %r" % (exc,))
+        return
+    R.check(cc.is_value_defined(owner, "f") is True, "defined-iff", "same-as-default:" + route,
+            lambda: "%s given its own default value %r through %s: not reported user-defined" % (".".join(path), value, route))
+    R.check(cc.is_value_defined(cfg, "other") is False, "defined-iff", "same-as-default:others", "another field became user-defined")
 
 
 def _nth(kind, n):
@@ -276,6 +330,8 @@ def _varying_case(case, R):
 def run_case(case, R):
     if case.get("mode") == "varying-default":
         return _varying_case(case, R)
+    if case.get("mode") == "same-as-default":
+        return _same_as_default_case(case, R)
     cc = sandbox._state["cc"]
     spec = case["spec"]
     with sandbox.CaseDir() as d:
